@@ -67,24 +67,26 @@ def componentIri (k : CKind) : Term :=
 inductive Result where
   | mk (focus : Term) (value : Option Term) (path : Option Term) (component : Term)
        (shape : Term) (severity : Term) (messages : List Term) (details : List Result)
+       (source : Option Term)        -- sh:sourceConstraint (sh:sparql constraints only)
   deriving Repr, Inhabited
 
 namespace Result
-def severity : Result → Term | mk _ _ _ _ _ s _ _ => s
-def focus : Result → Term | mk f _ _ _ _ _ _ _ => f
-def value : Result → Option Term | mk _ v _ _ _ _ _ _ => v
-def component : Result → Term | mk _ _ _ c _ _ _ _ => c
-def shape : Result → Term | mk _ _ _ _ s _ _ _ => s
-def details : Result → List Result | mk _ _ _ _ _ _ _ d => d
+def severity : Result → Term | mk _ _ _ _ _ s _ _ _ => s
+def focus : Result → Term | mk f _ _ _ _ _ _ _ _ => f
+def value : Result → Option Term | mk _ v _ _ _ _ _ _ _ => v
+def component : Result → Term | mk _ _ _ c _ _ _ _ _ => c
+def shape : Result → Term | mk _ _ _ _ s _ _ _ _ => s
+def messages : Result → List Term | mk _ _ _ _ _ _ m _ _ => m
+def details : Result → List Result | mk _ _ _ _ _ _ _ d _ => d
 end Result
 
 /-- `make_v_result`: severity and declared messages of the owning shape, path of a property shape
     unless an explicit result path is given -/
 def mkResult (s : Shape) (k : CKind) (f : Term) (value : Option Term)
     (resultPath : Option Term := none) (component : Option Term := none)
-    (details : List Result := []) : Result :=
+    (details : List Result := []) (source : Option Term := none) (messages : Option (List Term) := none) : Result :=
   .mk f value (match resultPath with | some p => some p | none => if s.isProp then s.path else none)
-    (component.getD (componentIri k)) s.node s.severity s.messages details
+    (component.getD (componentIri k)) s.node s.severity (messages.getD s.messages) details source
 
 abbrev FV := List (Term × List Term)      -- focus ↦ value nodes (python dict of sets)
 
